@@ -54,6 +54,7 @@ type Exec struct {
 }
 
 func newExec(P *Prog, fn *ssa.Function) *Exec {
+	resetTermTables()
 	ex := &Exec{P: P, vc: newVC(), heaps: map[string]*HeapInfo{}, top: fn, strs: map[string]Term{}, sentinels: map[string]Term{},
 		seenFacts: map[string]bool{}, nameCount: map[string]int{}, calls: map[string]int{}, trusted: map[string]bool{}, inlined: map[string]bool{}, unspec: map[string]bool{}}
 	ex.vc.declareFun("slen", []Sort{SInt}, SInt)
